@@ -762,6 +762,29 @@ def rule_lex_munch(prog):
                         "the payload of `%s` is put together (`+` / format!): `Display for TokenType` re-creates the lexeme from kind and "
                         "payload (it adds the `0x` itself), so formatting prints something that is not the lexeme that was read" % last(ctor),
                         ("payload",))
+    # (numtype) a numeric literal is parsed into the very type its token stores (IntResult::Int(u32)): parsing into a narrower or
+    # signed type and converting afterwards (`unsigned_abs`, `as`) rejects or changes literals of the upper half of the range
+    want_t = None
+    ir = prog.adts.get("spl_frontend::tokens::IntResult")
+    if ir:
+        for v_ in ir["variants"]:
+            if v_["name"] == "Int" and v_["fields"]:
+                want_t = c.tstr(v_["fields"][0]["t"])
+    for b in lexers:
+        for mc in hir.nodes(b["body"]):
+            tgt = None
+            if mc.get("k") == "MethodCall" and mc["m"] == "parse":
+                # Result<T, _>
+                t_ = c.tstr(mc["t"]) if "t" in mc else ""
+                tgt = t_[t_.index("Result<") + 7:].split(",")[0].strip() if "Result<" in t_ else None
+            elif mc.get("k") == "Call" and last(hir.callee(mc) or "") == "from_str_radix":
+                t_ = c.tstr(mc["t"]) if "t" in mc else ""
+                tgt = t_[t_.index("Result<") + 7:].split(",")[0].strip() if "Result<" in t_ else None
+            if tgt is None or want_t is None:
+                continue
+            out.add(b["d"], "a numeric literal is parsed into the type its token stores (%s)" % want_t, tgt == want_t, c.loc(mc["sp"]),
+                    "the digits are parsed as `%s` but stored as `%s`: literals that fit the stored type but not the parsed one become "
+                    "invalid (2147483648..4294967295 for i32), or values are bent on conversion" % (tgt, want_t), ("munch", "numtype"))
     # (anychar) SPL: a character literal is a tick, *any one character* (or the escape `\n`), a tick.  In the lexer that builds
     # TokenType::Char the character is read by `anychar`, possibly behind escape alternatives `map(tag("\.."), ..)`; a character
     # class in its place (none_of / one_of / satisfy / char(..) / is_not ..) rejects legal literals such as `'''`, and a
